@@ -24,7 +24,11 @@ type wrapperFact struct {
 	kind    string // "Tombstone" (repository is live), "tenant.HasAccess", "FileTombstones" (path not tombstoned)
 	result  bool   // the helper's result that establishes the fact
 	repoArg int    // position (in the ssa call's argument list: receiver first) of the repository record
-	ctxArg  int    // position of the context for tenant.HasAccess, else -1
+	ctxArg  int    // position of the context for tenant.HasAccess, else -1 (-2: a captured context variable)
+	// byIndex: the argument at repoArg is the index of the repository in the per-repository arrays
+	byIndex bool
+	// capturedCtx: the captured context variable of a closure (ctxArg == -2)
+	capturedCtx types.Object
 }
 
 var wrapperCache = map[*types.Func][]wrapperFact{}
@@ -41,25 +45,52 @@ func wrapperSummary(p *an.Prog, fn *types.Func) []wrapperFact {
 	}
 	wrapperCache[fn] = nil
 	d := p.Decl(fn)
-	if d == nil || d.Decl.Body == nil || d.Decl.Type.Results == nil || len(d.Decl.Type.Results.List) != 1 {
+	if d == nil || d.Decl.Body == nil {
 		return nil
 	}
-	info := d.Pkg.TypesInfo
-	if t := info.TypeOf(d.Decl.Type.Results.List[0].Type); t == nil || t.String() != "bool" {
-		return nil
+	out, skip := wrapperSummaryOf(d.Pkg.TypesInfo, d.Decl.Recv, d.Decl.Type, d.Decl.Body)
+	wrapperCache[fn] = out
+	wrapperSkip[fn] = skip
+	return out
+}
+
+var closureWrapperCache = map[*ast.FuncLit][]wrapperFact{}
+
+// wrapperSummaryLit is wrapperSummary for a function literal bound to a local (`listable := func(i int) bool {..}`).
+func wrapperSummaryLit(info *types.Info, lit *ast.FuncLit) []wrapperFact {
+	if s, ok := closureWrapperCache[lit]; ok {
+		return s
 	}
+	out, _ := wrapperSummaryOf(info, nil, lit.Type, lit.Body)
+	closureWrapperCache[lit] = out
+	return out
+}
+
+func wrapperSummaryOf(info *types.Info, recv *ast.FieldList, ftype *ast.FuncType, body *ast.BlockStmt) ([]wrapperFact, map[bool]string) {
+	if ftype.Results == nil || len(ftype.Results.List) != 1 {
+		return nil, nil
+	}
+	if t := info.TypeOf(ftype.Results.List[0].Type); t == nil || t.String() != "bool" {
+		return nil, nil
+	}
+	d := struct {
+		Decl struct {
+			Body *ast.BlockStmt
+		}
+	}{}
+	d.Decl.Body = body
 	// parameter positions as in ssa call arguments (receiver first)
 	pos := map[types.Object]int{}
 	k := 0
-	if d.Decl.Recv != nil {
-		for _, f := range d.Decl.Recv.List {
+	if recv != nil {
+		for _, f := range recv.List {
 			for _, nm := range f.Names {
 				pos[info.ObjectOf(nm)] = k
 			}
 			k++
 		}
 	}
-	for _, f := range d.Decl.Type.Params.List {
+	for _, f := range ftype.Params.List {
 		for _, nm := range f.Names {
 			pos[info.ObjectOf(nm)] = k
 			k++
@@ -68,10 +99,23 @@ func wrapperSummary(p *an.Prog, fn *types.Func) []wrapperFact {
 			k++
 		}
 	}
+	byIndex := map[int]bool{} // parameter positions that are indexes into the per-repository array
 	paramOf := func(e ast.Expr) (int, bool) {
 		e = ast.Unparen(e)
 		if u, ok := e.(*ast.StarExpr); ok {
 			e = ast.Unparen(u.X)
+		}
+		// <x>.repoMetaData[P] with P a parameter: the record of repository P
+		if ix, ok := e.(*ast.IndexExpr); ok {
+			if se, ok := ast.Unparen(ix.X).(*ast.SelectorExpr); ok && se.Sel.Name == "repoMetaData" {
+				if id, ok := ast.Unparen(ix.Index).(*ast.Ident); ok {
+					if i, ok := pos[info.ObjectOf(id)]; ok {
+						byIndex[i] = true
+						return i, true
+					}
+				}
+			}
+			return 0, false
 		}
 		id, ok := e.(*ast.Ident)
 		if !ok {
@@ -104,6 +148,8 @@ func wrapperSummary(p *an.Prog, fn *types.Func) []wrapperFact {
 	})
 	repoOf := map[string]int{}
 	ctxOf := -1
+	var capturedCtx types.Object
+	_ = capturedCtx
 	atom := func(e ast.Expr) (string, bool, bool) {
 		switch x := ast.Unparen(e).(type) {
 		case *ast.Ident:
@@ -125,6 +171,13 @@ func wrapperSummary(p *an.Prog, fn *types.Func) []wrapperFact {
 						if ci, ok := paramOf(x.Args[0]); ok {
 							repoOf["H"] = pi
 							ctxOf = ci
+							return "H", false, true
+						}
+						// a closure may use the captured request context: remembered as position -2
+						if cid, ok := ast.Unparen(x.Args[0]).(*ast.Ident); ok && info.ObjectOf(cid) != nil && info.ObjectOf(cid).Type().String() == "context.Context" {
+							repoOf["H"] = pi
+							ctxOf = -2
+							capturedCtx = info.ObjectOf(cid)
 							return "H", false, true
 						}
 					}
@@ -160,7 +213,7 @@ func wrapperSummary(p *an.Prog, fn *types.Func) []wrapperFact {
 	}
 	res, why := an.BoolEval(info, d.Decl.Body, []string{"T", "H", "F", "L"}, atom)
 	if why != "" {
-		return nil
+		return nil, nil
 	}
 	type formula struct {
 		kind  string
@@ -179,7 +232,7 @@ func wrapperSummary(p *an.Prog, fn *types.Func) []wrapperFact {
 	_, usesH := repoOf["H"]
 	_, usesF := repoOf["F"]
 	_, usesL := repoOf["L"]
-	wrapperSkip[fn] = map[bool]string{}
+	skip := map[bool]string{}
 	for _, r := range []bool{true, false} {
 		all, some := true, false
 		for w, got := range res {
@@ -203,7 +256,7 @@ func wrapperSummary(p *an.Prog, fn *types.Func) []wrapperFact {
 			if usesF {
 				rs = append(rs, "file-tombstone")
 			}
-			wrapperSkip[fn][r] = strings.Join(rs, "-or-")
+			skip[r] = strings.Join(rs, "-or-")
 		}
 	}
 	var out []wrapperFact
@@ -229,7 +282,7 @@ func wrapperSummary(p *an.Prog, fn *types.Func) []wrapperFact {
 				}
 			}
 			if all && some {
-				wf := wrapperFact{kind: fm.kind, result: r, repoArg: repoOf[fm.atoms[0]], ctxArg: -1}
+				wf := wrapperFact{kind: fm.kind, result: r, repoArg: repoOf[fm.atoms[0]], ctxArg: -1, byIndex: byIndex[repoOf[fm.atoms[0]]], capturedCtx: capturedCtx}
 				if fm.kind == "tenant.HasAccess" {
 					wf.ctxArg = ctxOf
 				}
@@ -237,8 +290,7 @@ func wrapperSummary(p *an.Prog, fn *types.Func) []wrapperFact {
 			}
 		}
 	}
-	wrapperCache[fn] = out
-	return out
+	return out, skip
 }
 
 // wrapperReason: for C01.R1 - cond (taken with truth) is a call to a helper
